@@ -153,6 +153,9 @@ pub struct TraceCase {
     /// lifecycle stage knob: regular refresh every n messages (0 = the code's 100 000)
     #[serde(default)]
     pub refresh_every: u32,
+    /// index of the first message (indices near u32::MAX are legal inputs too)
+    #[serde(default)]
+    pub index_base: u32,
 }
 
 pub fn gen_trace_case(rng: &mut Rng, tier: Tier, bias_merge: bool) -> TraceCase {
@@ -178,10 +181,18 @@ pub fn gen_trace_case(rng: &mut Rng, tier: Tier, bias_merge: bool) -> TraceCase 
     let split = if k.chance(1, 5) && trace.len() > 2 { k.urange(1, trace.len() - 1) } else { 0 };
     let gen_fired = st.fired.iter().map(|(k, v)| (k.to_string(), *v)).collect();
     let refresh_every = *rng.sub("refresh").pick(&[0u32, 0, 0, 1, 2, 3, 7, 20, 100]);
-    TraceCase { trace, split, knobs, gen_fired, refresh_every }
+    let index_base = match rng.sub("index_base").below(12) {
+        0 => u32::MAX - (trace.len() as u32).saturating_sub(1),
+        1 => u32::MAX - trace.len() as u32 - 50_000,
+        _ => 0,
+    };
+    TraceCase { trace, split, knobs, gen_fired, refresh_every, index_base }
 }
 
 pub fn record_world(c: &TraceCase, ctx: &mut Ctx) {
+    if c.index_base != 0 {
+        ctx.probe("message_indices_near_u32_max");
+    }
     if c.refresh_every != 0 {
         adlt_verif_seam::knobs::set_lc_regular_refresh_interval(c.refresh_every);
         ctx.probe("lc_regular_refresh_interval_shortened");
@@ -242,7 +253,7 @@ pub fn record_world(c: &TraceCase, ctx: &mut Ctx) {
 }
 
 pub fn batches_of(c: &TraceCase) -> Vec<Vec<DltMessage>> {
-    let all = to_dlts(&c.trace, 0);
+    let all = to_dlts(&c.trace, c.index_base);
     if c.split > 0 && c.split < all.len() {
         let (a, b) = all.split_at(c.split);
         vec![a.to_vec(), b.to_vec()]
@@ -257,7 +268,7 @@ pub fn shrink_trace_case(c: &TraceCase) -> Vec<TraceCase> {
         out.push(TraceCase { split: 0, ..c.clone() });
     }
     for t in shrink_vec(&c.trace) {
-        out.push(TraceCase { trace: t, split: 0, knobs: c.knobs.clone(), gen_fired: c.gen_fired.clone(), refresh_every: c.refresh_every });
+        out.push(TraceCase { trace: t, split: 0, knobs: c.knobs.clone(), gen_fired: c.gen_fired.clone(), refresh_every: c.refresh_every, index_base: c.index_base });
     }
     // simplify single messages
     for (i, m) in c.trace.iter().enumerate().take(60) {
@@ -287,7 +298,7 @@ pub fn shrink_trace_case(c: &TraceCase) -> Vec<TraceCase> {
 }
 
 fn check_forwarding(c: &TraceCase, r: &StageResult) -> Result<(), Violation> {
-    let input = to_dlts(&c.trace, 0);
+    let input = to_dlts(&c.trace, c.index_base);
     if r.out.len() != input.len() {
         viol!("forward-count", "{} messages in, {} out", input.len(), r.out.len());
     }
